@@ -48,6 +48,11 @@ CHECKS.update({
    text="Two (thorough: three) goroutines with their own generated parser/lexer objects are run under a controlled scheduler that owns every hand-off between Scan calls and actions; every schedule within the stated bound is executed on the real compiled code and each goroutine's observation compared with its sequential run; unsynchronised accesses inside a step are caught by running the same bodies free under the race detector.",
    note="Yield points are the parser's call-backs; the race pass is the guidance's separate detector run, not an enumeration.", ref="6 C17"),
 })
+CHECKS.update({
+ "C15": dict(cat="model_checking", tech="product of the shipped front-end LR tables with the canonical LR(1) automaton of spec/gocc2.ebnf to closure (in-process) + the real front-end Parse on exhaustive token sequences against Earley",
+   text="The shipped ActionTable/GotoTable/ProductionsTable are matched state by state against the canonical LR(1) automaton built from spec/gocc2.ebnf by an independent reader; the product closes, so language and reduction correspondence hold for all token sequences as far as the tables go; the real Parse (whose recovery code is not in the tables) is driven with every token sequence up to length 5 (thorough 6) and every sequence with a viable prefix up to length 8 (10).",
+   note="Semantic actions are replaced by logging stubs (acceptance is the parser's syntactic verdict); one known finding (empty-alternative pseudo recovery) is attributed by a decidable rule.", ref="6 C15"),
+})
 NOT_YET = {}
 
 def main():
